@@ -20,7 +20,7 @@ from checks import mutexlib as ml
 # inside a coroutine frame or on a waiter's stack.
 SITES = {
     "MO_resolve": ("xchg", "future.slot", None),
-    "MO_ready": ("load", "future.slot", r"ready\("),      # pending()/initialized() also load the slot (relaxed, no publication)
+    "MO_ready": ("load", "future.slot", r"::ready\(\)"),      # pending()/initialized() also load the slot (relaxed, no publication)
     "MO_sub": ("cas", "future.slot", None),
     "MO_fence": ("fence", None, r"subscribe|awaiter"),
     "MO_flag_store": ("store", "-", r"sync_awaiter"),
